@@ -211,4 +211,80 @@ example : exHistory.size = 2 ∧ exHistory.read 1 = some exWakeup.obj ∧
       = some (.ok ({ exWakeup with ts := 0, seq := 64, cc := 6, src := 2300001, dst := 9990 } : Frame).bytes) :=
   ⟨by rfl, by rfl, by rfl, by rfl⟩
 
+/-! ## the frame's own fields against the values inside its payload, and against each other
+
+`Frame.wf` puts no condition on the 34 payload octets beyond being octets, and none relating `src`,
+`dst`, `cc`, `seq`, `ts`: `paths_agree`, `bursts_agree` and `reserialise` therefore already cover every
+frame whose trailer ids are equal to, crossed with or one off the ids its payload carries (link-layer
+ids of a data header, CSBK / full-LC addresses, the ids a sync payload repeats), every `src = dst`,
+every colour / timeslot / sequence coincidence.  The statements below spell that out; the run exercises
+the class on the real code (`rel:*` counters of the evidence: payloads built with the library's PDU
+classes and FEC encoders, every relation x every payload kind x both decoders). -/
+
+/-- **the decoded fields come from the frame's own octets, never from the payload it carries or from a
+sibling field**: take a frame `f`, put ANY 34 payload octets `p` in it (in particular a payload that
+carries — FEC-encoded or verbatim — ids equal to, crossed with or one off the trailer ids, another
+colour code, a TDMA sync pattern of the other timeslot, copies of the frame's own header) and ANY ids
+`s`, `d` (equal, swapped, one apart, equal to the sequence number …); provided the result is a
+well-formed frame, both decoder paths report exactly `s` and `d`, and colour code, sequence number,
+timeslot and burst class are those of `f`, whatever `p`, `s`, `d` are; and the frame re-serialises -/
+theorem fields_from_own_octets (f : Frame) (p : Bytes) (s d : Nat)
+    (hg : ({ f with payload := p, src := s, dst := d } : Frame).wf = true) :
+    burstRaw ({ f with payload := p, src := s, dst := d } : Frame).bytes
+      = .ok ({ f with payload := p, src := s, dst := d } : Frame).view ∧
+    burstKaitai ({ f with payload := p, src := s, dst := d } : Frame).bytes
+      = .ok ({ f with payload := p, src := s, dst := d } : Frame).view ∧
+    ({ f with payload := p, src := s, dst := d } : Frame).view.src = s ∧
+    ({ f with payload := p, src := s, dst := d } : Frame).view.dst = d ∧
+    ({ f with payload := p, src := s, dst := d } : Frame).view.cc = f.view.cc ∧
+    ({ f with payload := p, src := s, dst := d } : Frame).view.seq = f.view.seq ∧
+    ({ f with payload := p, src := s, dst := d } : Frame).view.timeslot = f.view.timeslot ∧
+    ({ f with payload := p, src := s, dst := d } : Frame).view.cls = f.view.cls ∧
+    ({ f with payload := p, src := s, dst := d } : Frame).view.btype = f.view.btype ∧
+    (fromIpscBytes ({ f with payload := p, src := s, dst := d } : Frame).bytes).bind asIpscBytes
+      = .ok ({ f with payload := p, src := s, dst := d } : Frame).bytes ∧
+    (kaitaiPath ({ f with payload := p, src := s, dst := d } : Frame).bytes).bind asIpscBytes
+      = .ok ({ f with payload := p, src := s, dst := d } : Frame).bytes := by
+  have hb := bursts_agree _ hg
+  have hr := reserialise _ hg
+  exact ⟨hb.1, hb.2.1, rfl, rfl, rfl, rfl, rfl, rfl, rfl, hr.2.1, hr.2.2⟩
+
+/-- the reply to a frame (trailer ids swapped, payload untouched — so crossed against whatever ids the
+payload carries) decodes to the swapped ids by both paths -/
+theorem ids_swapped (f : Frame) (hg : ({ f with src := f.dst, dst := f.src } : Frame).wf = true) :
+    (burstRaw ({ f with src := f.dst, dst := f.src } : Frame).bytes).map (fun v => (v.src, v.dst)) = .ok (f.dst, f.src) ∧
+    (burstKaitai ({ f with src := f.dst, dst := f.src } : Frame).bytes).map (fun v => (v.src, v.dst)) = .ok (f.dst, f.src) := by
+  have hb := bursts_agree _ hg
+  rw [hb.1, hb.2.1]
+  exact ⟨rfl, rfl⟩
+
+/-- the captured sync frame (its payload repeats destination 111 at octets 7/9/11 and source 2308090 at
+13/15/17, 00-padded) relayed with destination := source: both paths report destination 2308090, the
+trailer's, not the 111 of the payload copy -/
+def exSelfAddressed : Frame := { exFrame with dst := 2308090 }
+
+set_option maxRecDepth 8192 in
+example : exSelfAddressed.wf = true ∧
+    (burstRaw exSelfAddressed.bytes).map (fun v => (v.cls, v.src, v.dst)) = .ok (.sync, 2308090, 2308090) ∧
+    (burstKaitai exSelfAddressed.bytes).map (fun v => (v.cls, v.src, v.dst)) = .ok (.sync, 2308090, 2308090) ∧
+    (fromIpscBytes exSelfAddressed.bytes).bind asIpscBytes = .ok exSelfAddressed.bytes :=
+  ⟨by decide, by rfl, by rfl, by rfl⟩
+
+/-- the captured data-header frame (BPTC-encoded header: link-layer source 2308195, destination 2308155)
+relayed with the trailer ids the other way round (source 2308155, destination 2308195 — crossed against
+the header inside the payload): both paths report the trailer's ids -/
+def exCrossed : Frame :=
+  { first := [0x5a, 0x5a], seq := 210, r3 := [0x2b, 0, 0], pt := 0, r7 := [0, 5, 1, 2, 0, 0, 0], ts := 1, st := 4,
+    cc := 5, ft := 0, r2a := [0x40, 0x95],
+    payload := [0x0a, 0x39, 0x1d, 0x32, 0x80, 0x2b, 0xb9, 0x3b, 0x92, 0x21, 0xc1, 0x63, 0xbd, 0x15, 0x57, 0xff, 0x5d,
+      0xd7, 0xd5, 0xf5, 0x2d, 0x5c, 0x52, 0x11, 0xf0, 0x21, 0x87, 0x29, 0xd3, 0x4a, 0xaa, 0x06, 0x00, 0x6d],
+    r2b := [0x1d, 0x32], ct := 0, dst := 2308195, src := 2308155, r1 := [0] }
+
+set_option maxRecDepth 8192 in
+example : exCrossed.wf = true ∧
+    exCrossed.bytes.drop 60 = [0x1d, 0x32, 0x00, 0x00, 0x63, 0x38, 0x23, 0x00, 0x3b, 0x38, 0x23, 0x00] ∧
+    (burstRaw exCrossed.bytes).map (fun v => (v.cls, v.btype, v.src, v.dst)) = .ok (.burst, .dataAndControl, 2308155, 2308195) ∧
+    (burstKaitai exCrossed.bytes).map (fun v => (v.src, v.dst)) = .ok (2308155, 2308195) :=
+  ⟨by decide, by decide, by rfl, by rfl⟩
+
 end Dmr.C13
